@@ -2532,10 +2532,12 @@ def long_silent_loops(prefix):
     for i, body in enumerate([["let w = 0;", "while(w < 3000)", "let w = w + 1;", "end while", "(w) X"],
                               ["let s = 0;", "loop(i,5000)", "let s = s + i;", "end loop", "(s) X"],
                               ["let s = 0;", "loop(i,70)", "loop(j,70)", "let s = s + 1;", "end loop", "end loop", "(s) X", "while(s > 0)", "let s = s - 1;", "end while", "(s) X"],
-                              ["1 X", "let w = 0;", "while(w < 20000)", "let w = w + 1;", "end while", "2 X"]]):
+                              ["1 X", "let w = 0;", "while(w < 20000)", "let w = w + 1;", "end while", "2 X"],
+                              ["1 X", "let w = 0;", "while(w < 400000)", "let w = w + 1;", "end while", "(w) X"],
+                              ["let s = 0;", "loop(i,300000)", "let s = s + 1;", "end loop", "(s) X"]]):
         for kind in ("run", "static"):
             cases.append({"id": "%s-silent-%d-%s" % (prefix, i, kind), "kind": kind, "src": "A Q\n" + "\n".join(body) + "\n", "sigs": [dict(s_) for s_ in sigs],
-                          "layout": [1], "table": [["1"]], "echo": 0, "wdefault": 0, "faults": [], "max": 20, "seed": 1, "fuel": 400000})
+                          "layout": [1], "table": [["1"]], "echo": 0, "wdefault": 0, "faults": [], "max": 20, "seed": 1, "fuel": 400000 if i < 4 else 3000000})
     return cases
 
 
@@ -2797,3 +2799,27 @@ def c18_reset_in_loop_cases(seed, tier):
 
 for _p in ("C18", "C01", "C17"):
     _extend(_p, c18_reset_in_loop_cases, "plus resetRandom executed inside loop / repeat / while bodies with shadowed outer bindings")
+
+
+def _equal_valued_twins(prop):
+    """copies of the fault cases whose deviation is a swap / substitution, with a driver that reports the SAME value for
+    every output on every call: the deviating answer then has the value vector of the answer before it (only the
+    signals differ), and it is still a deviation"""
+    base = PROPS[prop]["cases"]
+    def f(seed, tier):
+        cases = base(seed, tier)
+        rng = random.Random(seed ^ 0xE9A1)
+        out = []
+        for c in cases:
+            if c.get("kind") == "run" and c.get("layout") and any(what.split()[0] in ("swap", "subst", "swapsig") for _, what in c.get("faults", [])) and "declare" not in c.get("src", ""):
+                v = rng.choice(["1", "0", "3", "1"])
+                out.append(dict(c, id=c["id"] + "-eqv", table=[[v] * len(c["layout"])]))
+                if len(out) >= (40 if tier == "quick" else 1500):
+                    break
+        return cases + out
+    PROPS[prop]["cases"] = f
+    PROPS[prop]["rule"] += "; plus equal-valued twins of the swap / substitution cases (the deviating answer has the value vector of the answer before it)"
+
+
+_equal_valued_twins("C13")
+_equal_valued_twins("C03")
